@@ -77,6 +77,42 @@ CHECKS = {
             "histories is NOT decided.", "4 C20"),
 }
 
+# clauses added after the seeded-change rounds (DESIGN.md §7): (technique, text)
+EXTRA = {
+    "C01": ("exact decision table of the YATA conflict scan by truth table over loop-round path formulas; the stash rules of C02 (a, b2, g)",
+            "Also decides that the per-item decisions of Item::resolve_conflict equal the YATA rule (move left / clear / continue / insert), and the C02 stash clauses."),
+    "C02": ("R-OWN every mutation of a `missing` vector is set_min; R-GUARD every dependency kind is tested with the skip-aware is_missing of the id returned",
+            "Also decides that stashed dependency clocks are only lowered and that Update::missing_dependency tests every dependency kind with BlockStore::is_missing."),
+    "C03": ("R-GUARD attribute bookkeeping under liveness (update_current_attributes sites); R-GUARD positional traversals consume item lengths only under a liveness test",
+            "Also decides that tombstoned formatting marks never enter current attributes and that index<->place traversals count live elements only."),
+    "C04": ("squash preconditions and conflict-scan decision table shared with C03/C01; R-PROV partial integration (Item::trim, integrate_gc/skip offsets)",
+            "Also decides the squash preconditions, the conflict-scan decision table, and that partial integration re-anchors id, length, content, left and origin by the same offset."),
+    "C05": ("R-ORDER the right-most test in splice reads item.right before any overwrite", "Also decides the read-before-overwrite order of the map fix-up in splice."),
+    "C06": ("R-PROV announced start clock = clock(first written block) + offset trimmed from that block (MIR value roots)",
+            "Also decides the first-block offset identity of write_blocks_from and Update::encode_diff."),
+    "C08": ("R-ORDER/R-GUARD sort before gap in merge_updates (path formula of the Skip construction AND `head decoder advanced` unsatisfiable); first-block offset identity of encode_diff",
+            "Also decides that merge_updates cannot synthesise a Skip in a round that advanced the head decoder without re-sorting, and the offset identity of encode_diff."),
+    "C09": ("R-TABLE inverse operators of packed words and running values of the v2 columns (shift/mask, sub/add, negation, delete-set running clock)",
+            "Also decides that the v2 run-length columns unpack with the inverse operators of the writer (value-level only to that extent)."),
+    "C10": ("frozen bound arguments may carry machine-checked premises (narrow_param: every caller passes a constant or a value zero-extended from <= 32 bits)",
+            "Bound arguments that rest on other functions are re-checked on every run where a premise kind exists."),
+    "C12": ("R-FIXPOINT redone chains are loop-carried (flow-sensitive taint from a lookup's result to its own argument)",
+            "Also decides that every redone-chain lookup of an item other than self in ItemPtr::redo is iterated."),
+    "C13": ("R-PROV both bounds of a string slice are applied with split_str(.., Utf16)", "Also decides the unit of string slice bounds."),
+    "C14": ("R-GUARD the anchor's own offset counts only for a live countable anchor", "Also decides that a deleted anchor contributes no offset of its own."),
+    "C15": ("keep propagation through squash shared with C12", "Also decides that a squash carries KEEP into the merged block."),
+    "C16": ("R-GUARD same-element belief rule on the interval lists (value numbering of indexes over MIR)",
+            "Also decides that every store into element k of a range list is decided by a condition reading element k. The set algebra itself stays undecided."),
+    "C17": ("R-GUARD attribute bookkeeping and positional traversals under liveness (frozen function list, 21 length-consuming steps)",
+            "Also decides that formatting marks and item lengths are consumed only under a liveness test in the listed traversals."),
+    "C18": ("R-PROV/R-ORDER the SyncStep2 payload is exactly encode_state_as_update_v1(&sv) and its call dominates the reply",
+            "Also decides that the reply to SyncStep1 is the diff on every path."),
+    "C19": ("R-PROV running insertion index of loop wrappers advances by the inserted count (MIR roots)",
+            "Also decides the index arithmetic of yarray_insert_range."),
+    "C20": ("R-OWN who-may-call table of clear_linked with ownership closure + squash precondition `neither linked`",
+            "Also decides that the LINKED flag is cleared only where quotations go away or move on (never on the deletion path)."),
+}
+
 PENDING = {
 }
 
@@ -85,6 +121,9 @@ def main():
     checks = []
     for pid in sorted(CHECKS):
         tech, text, ref = CHECKS[pid]
+        if pid in EXTRA:
+            tech = tech + "; " + EXTRA[pid][0]
+            text = text + " " + EXTRA[pid][1]
         checks.append({
             "property_id": pid,
             "quick_cmd": "python3 check.py %s --tier quick" % pid,
